@@ -204,8 +204,17 @@ class Broker(object):
         self.port = port
         self.up = True
         self.conns = set()
-        self.api_versions = "table"  # table | close | silent | error35
+        self.api_versions = "table"  # table | close | silent | error35 | stall
         self.version_table = None  # None = cluster default
+        self.stalled = []
+
+    def release_stalled(self):
+        """End a stall: answer the ApiVersions requests held so far, answer later ones at once."""
+        self.api_versions = "table"
+        held, self.stalled = self.stalled, []
+        for ev, reply, table in held:
+            ev["result"] = dict(error=0, versions=table)
+            reply(R.resp_api_versions(ev["corr"], 0, table))
 
     def on_connect(self, conn):
         bc = BrokerConn(self, conn)
@@ -432,6 +441,11 @@ class Cluster(object):
         if mode == "silent":
             ev["replied"] = "silent"
             self._done(ev)
+            return
+        if mode == "stall":
+            # a stalled broker: the request is answered when release_stalled() is called
+            table = broker.version_table if broker.version_table is not None else self.version_table
+            broker.stalled.append((ev, reply, list(table)))
             return
         if mode == "error35" or act.kind == "error":
             code = ERR_UNSUPPORTED_VERSION if mode == "error35" else act.code
